@@ -243,6 +243,10 @@ class HBatchPrio(HBatch):
     """kinds with a generated priority table override get_priority (kinds without one keep asynq's default)"""
 
     def get_priority(self):
+        # called by the scheduler only (the harness uses prio_of): a point inside batch selection where
+        # another thread may take a turn (C16)
+        if self.env.on_step is not None:
+            self.env.on_step()
         p = self.env.prio[self.kind]
         return (p[self.no % len(p)], 0)
 
@@ -250,7 +254,8 @@ class HBatchPrio(HBatch):
 def prio_of(batch):
     """the priority the scheduler should see (for a batch that does not override it: the documented default)"""
     if isinstance(batch, HBatchPrio):
-        return batch.get_priority()
+        p = batch.env.prio[batch.kind]
+        return (p[batch.no % len(p)], 0)
     return (0, len(batch.items))
 
 
